@@ -151,7 +151,7 @@ def run_shard(ctx):
         fmt = formats.FORMATS[i % len(formats.FORMATS)]
         force = None
         if fmt == "images":
-            force = ["many-per-cell", "shared-object", None][(i // 7) % 3]
+            force = ["many-per-cell", "shared-object", "near-equal-paths", None][(i // 7) % 4]
         if fmt == "composeinfo":
             force = ["depth-3", "paths-full", None][(i // 7) % 3]
         if fmt == "treeinfo":
